@@ -216,27 +216,22 @@ example :
     ValidateJ2k.Encoder.Encode_accepts (j2kEnc { j2kDefault16 with ProgressionOrder := 4, NumLayers := 65535 }) 256 = true ∧
     ValidateJ2k.Encoder.Encode_accepts (j2kEnc { j2kDefault16 with Lossless := false, Quality := 100 }) 256 = true := by decide
 
-/-- still open, MODEL LEVEL ONLY (class `j2k-dim-over-32bit`): `validateParams` has no upper bound
-    on Width/Height while SIZ carries 32-bit fields. The witness needs a 4 GiB pixel buffer and is
-    not replayed on the real code. -/
-theorem j2k_accepts_size32_counterexample :
-    ValidateJ2k.Encoder.Encode_accepts (j2kEnc { j2kDefault16 with Width := 4294967296, Height := 1 }) 4294967296 = true ∧
+/-- regression anchor (class `j2k-dim-over-32bit`, repaired by d320418): an extent beyond the
+    32-bit SIZ fields is now rejected -/
+example :
+    ValidateJ2k.Encoder.Encode_accepts (j2kEnc { j2kDefault16 with Width := 4294967296, Height := 1 }) 4294967296 = false ∧
     ¬ J2kRepresentable { j2kDefault16 with Width := 4294967296, Height := 1 } 4294967296 := by decide
 
-theorem j2k_FullStatement_false : ¬ j2k_accepts_representable_FullStatement :=
-  fun h => j2k_accepts_size32_counterexample.2 (h _ _ j2k_accepts_size32_counterexample.1)
-
 /-- Everything the format predicate asks for is proved from the generated guard chain
-    (`validateParams` ; `convertPixelData` as composed by `Encoder.Encode`): positive dimensions,
-    1..4 components, depth 1..16, levels 0..6, code-block sides ∈ {4,…,1024} powers of two (via the
-    generated `isPowerOfTwo`) with area ≤ 4096, tile sizes ≥ 0, precinct sizes 0 or a power of two
-    ≤ 2^15, 1..65535 layers, progression order ≤ 4, lossy quality 1..100, buffer length —
-    EXCEPT the 32-bit bound on Width/Height (`hW`, `hH`: missing in the code, see the witness above).
+    (`validateParams` ; `convertPixelData` as composed by `Encoder.Encode`): positive dimensions
+    within the 32-bit SIZ fields, 1..4 components, depth 1..16, levels 0..6, code-block sides ∈
+    {4,…,1024} powers of two (via the generated `isPowerOfTwo`) with area ≤ 4096, tile sizes ≥ 0,
+    precinct sizes 0 or a power of two ≤ 2^15, 1..65535 layers, progression order ≤ 4, lossy
+    quality 1..100, buffer length.
     `hu8` is not a guard but the type invariant of the Go field (`ProgressionOrder uint8`), which
     go2lean's `Int` reading of the structure drops. -/
-theorem j2k_accepts_representable_partial (e : ValidateJ2k.Encoder) (len : Int)
+theorem j2k_accepts_representable (e : ValidateJ2k.Encoder) (len : Int)
     (hacc : ValidateJ2k.Encoder.Encode_accepts e len = true)
-    (hW : e.params.Width ≤ 4294967295) (hH : e.params.Height ≤ 4294967295)
     (hu8 : 0 ≤ e.params.ProgressionOrder) :
     J2kRepresentable e.params len := by
   unfold ValidateJ2k.Encoder.Encode_accepts ValidateJ2k.Encoder.validateParams_accepts
@@ -255,7 +250,7 @@ theorem j2k_accepts_representable_partial (e : ValidateJ2k.Encoder) (len : Int)
     · exact Or.inl hz
     · exact Or.inr (isPowerOfTwo_precinct _ hz.2 hz.1)
   unfold J2kRepresentable
-  refine ⟨⟨by omega, hW⟩, ⟨by omega, hH⟩, by omega, by omega, by omega, hcw, hch, by omega, by omega, hpw, hph,
+  refine ⟨⟨by omega, by omega⟩, ⟨by omega, by omega⟩, by omega, by omega, by omega, hcw, hch, by omega, by omega, hpw, hph,
     by omega, ⟨hu8, by omega⟩, ?_, by omega⟩
   intro hl
   rcases h12 with hq | hq
